@@ -17,6 +17,8 @@ type c09Cfg struct {
 	EncVsn   int    `json:"enc_version"` // -1 none
 	Compress bool   `json:"compress"`
 	Label    string `json:"label"`
+	// the host has no user delegate at all (the joiner has one and sends user state)
+	HostNoDelegate bool `json:"host_without_delegate,omitempty"`
 }
 
 func (c c09Cfg) mut(extra func(cf *memberlist.Config)) func(cf *memberlist.Config) {
@@ -54,9 +56,11 @@ func digestOf(n *SimNode) nodeDigest {
 		fmt.Fprintf(&b, "%s:%d:%d:%x;", r.Name, r.Incarnation, r.State, r.Meta)
 	}
 	d := nodeDigest{Records: b.String(), Events: int(n.Ev.Events.Load())}
-	n.Del.mu.Lock()
-	d.Merged = len(n.Del.Merged)
-	n.Del.mu.Unlock()
+	if n.Del != nil {
+		n.Del.mu.Lock()
+		d.Merged = len(n.Del.Merged)
+		n.Del.mu.Unlock()
+	}
 	n.mu.Lock()
 	d.MergeCb = n.MergeCalls
 	n.mu.Unlock()
@@ -66,11 +70,13 @@ func digestOf(n *SimNode) nodeDigest {
 // setup builds host H (knowing two extra members) and joiner J (knowing nobody).
 func c09Pair(seed int64, cfg c09Cfg, jMut, hMut func(cf *memberlist.Config), jSpec func(s *NodeSpec)) (*Cluster, *SimNode, *SimNode, error) {
 	c := NewCluster(seed)
-	H, err := c.Add(NodeSpec{Name: "H", IP: "10.8.0.1", Meta: []byte("meta-H"), WithMerge: true, WithAlive: true, Mutate: cfg.mut(hMut)})
+	H, err := c.Add(NodeSpec{Name: "H", IP: "10.8.0.1", Meta: []byte("meta-H"), WithMerge: true, WithAlive: true, NoDelegate: cfg.HostNoDelegate, Mutate: cfg.mut(hMut)})
 	if err != nil {
 		return c, nil, nil, err
 	}
-	H.Del.State = []byte("user-state-of-H-0123456789")
+	if H.Del != nil {
+		H.Del.State = []byte("user-state-of-H-0123456789")
+	}
 	js := NodeSpec{Name: "J", IP: "10.8.0.2", Meta: []byte("meta-J"), WithMerge: true, WithAlive: true, Mutate: cfg.mut(jMut)}
 	if jSpec != nil {
 		jSpec(&js)
@@ -348,8 +354,11 @@ func runC09Cuts(run *Run, seed int64, cfg c09Cfg, rng *rand.Rand, full bool) (ou
 					listed = true
 				}
 			}
-			g := H.Del.MergedStates()
-			if !listed || len(g) != 1 || !bytes.Equal(g[0].Buf, J.Del.State) {
+			var g []MergedState
+			if H.Del != nil {
+				g = H.Del.MergedStates()
+			}
+			if !listed || (H.Del != nil && (len(g) != 1 || !bytes.Equal(g[0].Buf, J.Del.State))) {
 				fail("host-partial-merge", "%s: the host merged only part of a complete inbound state (lists joiner: %v, user state deliveries: %d)", desc, listed, len(g))
 			}
 		}
@@ -480,6 +489,26 @@ func runC09Reject(run *Run, seed int64, cfg c09Cfg, rng *rand.Rand, cases int) (
 	R.mu.Unlock()
 	if calls != 1 {
 		fail("veto-not-consulted", "merge delegate consulted %d times for one join exchange", calls)
+	}
+	// ... also when the exchange names nobody the receiver has not heard of: a known member that comes
+	// back (higher incarnation, other metadata) and a known one reported with new metadata
+	before = snap()
+	known := []WPushNodeState{{Name: "F", Addr: []byte(F.EP.IP), Port: 7946, Incarnation: 9, State: SAlive, Meta: []byte("returning"), Vsn: DefaultVsn()}, {Name: "T", Addr: []byte(T.EP.IP), Port: 7946, Incarnation: 9, State: SAlive, Meta: []byte("changed"), Vsn: DefaultVsn()}}
+	if _, _, err := F.PushPull(true, known, []byte("vetoed-user-state-2")); err != nil {
+		fail("harness/pp", "%v", err)
+		return
+	}
+	run.Eval(1)
+	run.Cell("reject", "merge-veto-join-known-names")
+	if after := snap(); after != before {
+		fail("veto-ignored", "a join exchange that only names already known members, vetoed by the merge delegate, changed the receiver: %s -> %s", before, after)
+		return
+	}
+	R.mu.Lock()
+	calls = R.MergeCalls
+	R.mu.Unlock()
+	if calls != 2 {
+		fail("veto-not-consulted", "merge delegate consulted %d times for two join exchanges", calls)
 	}
 	// as initiator: Join towards a peer whose state the merge delegate vetoes
 	F.OnStream = func(c *ConnEnd) {
@@ -706,11 +735,14 @@ func TestC09(t *testing.T) {
 		"(1) Mutual listing: a real joiner joins a real host that knows alive, dead and left members; at the instant Join returns 1 (only quiescence is awaited, no virtual time passes) the joiner lists the host and every member the host reported alive except those its own filters reject (alive-delegate veto, CIDR allowlist, a newer dead record it already holds), lists none reported dead/left, the host lists the joiner, both delegates got the other's user state exactly once. (2) For every configuration (encryption none/v1/v0 x compression x label) and both directions the join exchange is replayed with the stream cut after byte k = 0..len (hard reset and black hole): the side whose inbound message was incomplete keeps an identical digest, Join reports failure within TCPTimeout, a side with a complete inbound message merges all or nothing, every connection end is closed. (3) Rejections on a real node with a scripted peer: merge-delegate veto (as responder on join, as initiator), random version 6-tuples over {0..6} against an independent compatibility predicate (incompatible => digest unchanged), triple-duplicate and self-dead entries. (4) Hearsay: a push/pull reporting a third member dead/suspect at >= the held incarnation leaves it listed, fires no leave event, starts a suspicion, and the member goes only at >= the minimum suspicion timeout. Cell = (part, region/variant, config).")
 	defer run.Finish()
 	run.Assume("the host may legitimately merge when ITS inbound message was complete even if its reply is cut", "version oracle used one-directionally: incompatible => nothing changes")
-	cfgs := []c09Cfg{{-1, false, ""}, {-1, true, "c9"}, {1, false, ""}, {1, true, "c9"}, {0, false, "c9"}, {0, true, ""}}
+	cfgs := []c09Cfg{{-1, false, "", false}, {-1, true, "c9", false}, {1, false, "", false}, {1, true, "c9", false}, {0, false, "c9", false}, {0, true, "", false}, {-1, false, "", true}}
 	k := 0
 	for rep := 0; rep < run.Pick(1, 10); rep++ {
 		for ci, cfg := range cfgs {
 			for _, variant := range []string{"plain", "alive-veto", "joiner-knows-newer-dead", "cidr"} {
+				if cfg.HostNoDelegate {
+					break // this configuration is for the cut enumeration only
+				}
 				k++
 				id := fmt.Sprintf("mutual/%d/%s/rep%d", ci, variant, rep)
 				if !run.Mine(k) || !run.Want(id) {
